@@ -54,7 +54,7 @@ theorem handleByCommand_answer (s : St) (cid : Nat) (m : AMsg) (info : MsgInfo) 
           · split <;> rfl
           · rfl
 
-theorem outQs_recordOrigin (s : St) (m : AMsg) (info : MsgInfo) : outQs (recordOrigin s m info) = outQs s := by
+theorem outQs_recordOrigin (s : St) (cid : Nat) (m : AMsg) (info : MsgInfo) : outQs (recordOrigin s cid m info) = outQs s := by
   unfold recordOrigin; split <;> rfl
 
 /-- **The node never transmits anything in reaction to a received answer**: for
@@ -67,7 +67,7 @@ theorem C07_no_answer_to_answer (s : St) (cid : Nat) (m : AMsg) (info : MsgInfo)
   unfold receiveMessage
   simp only [hr, Bool.false_and, Bool.false_eq_true, if_false, Bool.and_false, hk, Bool.not_false,
     Bool.and_true, if_true]
-  have hq := handleByCommand_answer (recordOrigin s m info) cid m info hr
+  have hq := handleByCommand_answer (recordOrigin s cid m info) cid m info hr
   rw [outQs_recordOrigin] at hq
   split
   · rename_i s' heq
